@@ -65,6 +65,30 @@ def gen_version_h(dirpath):
     return p
 
 
+def gen_toknames_h(dirpath):
+    """toknames.h: token type number -> name, from the current libMultiMarkdown.h / parser.h (for stable signatures)."""
+    txt = open(os.path.join(REPO, "src", "libMultiMarkdown.h"), encoding="utf-8", errors="replace").read()
+    m = re.search(r"enum token_types \{(.*?)\};", txt, re.S)
+    body = re.sub(r"//[^\n]*", "", m.group(1))
+    names, val = {}, -1
+    for ent in body.split(","):
+        ent = ent.strip()
+        if not ent:
+            continue
+        mm = re.match(r"(\w+)\s*(?:=\s*(\d+))?$", ent)
+        if not mm:
+            continue
+        val = int(mm.group(2)) if mm.group(2) else val + 1
+        names[val] = mm.group(1)
+    for mm in re.finditer(r"#define\s+(LINE_\w+)\s+(\d+)", open(os.path.join(REPO, "src", "parser.h")).read()):
+        names.setdefault(int(mm.group(2)), mm.group(1))
+    out = "static const char *vp_tokname(int t) {\n\tswitch (t) {\n" + "".join(
+        '\t\tcase %d: return "%s";\n' % (k, v) for k, v in sorted(names.items())) + '\t\tdefault: return "?";\n\t}\n}\n'
+    p = os.path.join(dirpath, "toknames.h")
+    if not os.path.exists(p) or open(p).read() != out:
+        open(p, "w").write(out)
+
+
 def _compile_one(cc, flags, src, objdir, extra_inc):
     base = os.path.basename(src)
     fl = flags
@@ -98,6 +122,7 @@ def build_objects(variant, extra_sources=(), with_main=False):
     incdir = os.path.join(BUILD, "inc")
     os.makedirs(incdir, exist_ok=True)
     gen_version_h(incdir)
+    gen_toknames_h(incdir)
     srcs = [os.path.join(REPO, "src", f) for f in repo_sources()]
     if with_main:
         srcs += [os.path.join(REPO, "src", "main.c"), os.path.join(REPO, "src", "argtable3.c")]
